@@ -21,17 +21,24 @@ for pid in sorted(ents):
     for f in ents[pid].get('findings', []):
         out.append('* **%s** [%s] %s' % (f['id'], f['status'], f['what']))
 out.append('\n### 11.3 Seeded changes (written by independent sub-agents from the property text only) and which check catches them\n')
-out.append('| Seed | Property | Check outcome on the patched tree (quick tier) | What it needs to manifest (from the author\'s notes) |')
-out.append('|---|---|---|---|')
+out.append('Rounds: A,B first round; C,D second; E,F third (after the coverage audits); G,H fourth. "first" = outcome of the quick check when the seed was first tried (misses were fed back into the generators/specs, see design/Cxx.md "Seeded changes"); "final" = outcome against the final checks.\n')
+out.append('| Seed | Property | first outcome (quick tier) | final outcome (quick tier) | What it needs to manifest (from the author\'s notes) |')
+out.append('|---|---|---|---|---|')
 for d in sorted(glob.glob(os.path.join(V, 'seeded', '*'))):
     mp = os.path.join(d, 'meta.json')
     if not os.path.exists(mp):
         continue
     m = json.load(open(mp))
     needs = re.sub(r'\s+', ' ', m.get('needs_to_manifest', ''))[:260].replace('|', '/')
-    res = '; '.join(m.get('check_result') or ['(no output)'])
-    res = re.sub(r'replay=\S+', 'replay=...', res)
-    out.append('| %s | %s | %s | %s |' % (os.path.basename(d), m['property'], res, needs))
+    def short(cs):
+        cs = [c for c in (cs or []) if not c.startswith('KNOWN-FINDING')] or ['(no output)']
+        r = re.sub(r'replay=\S+', '', '; '.join(cs))
+        r = re.sub(r'property=C\d+ ?', '', r)
+        r = re.sub(r'tier=quick cases=\d+ nontrivial=\d+ obligations=\d+ wall=[\d.]+s', '', r)
+        return r.strip()[:60]
+    n_all = n_all + 1 if 'n_all' in dir() else 1
+    out.append('| %s | %s | %s | %s | %s |' % (os.path.basename(d), m['property'], short(m.get('check_result')),
+                                               short(m.get('final_check_result')), needs[:200]))
 out.append('\n### 11.4 Behaviour-preserving refactorings (written by independent sub-agents, each with an old-vs-new equivalence harness) and what the checks say\n')
 rp = os.path.join(V, 'seeded', 'refactor', 'results.json')
 if os.path.exists(rp):
